@@ -111,16 +111,25 @@ def _builders(ctx):
                 ctx.check(len(rv["ops"]) == 4, "C19.D2", "restore-arity:%s" % name, site(b, bb, i), ok="RESTORE key ttl payload (no REPLACE / extra option)", bad="RESTORE built with %d elements" % len(rv["ops"]))
                 st = du.slice_operand(rv["ops"][2])
                 via = st.has_call("pttl_to_restore_expire_time")
-                names = {n for a, n in st.fields}
-                from_pttl = ("pttl" in names) or any(b.local_name(l) == "pttl" for l in st.locals) or any(b.local_name(l) == "pttl" for l, _ in st.params) or ("pttl" in st.captures)
+                # the ttl element is fed by an entry field / variable of its own: not the key's and not the payload's
+                # (identified by data flow, the field names are not relied upon)
+                def _srcs(sl_):
+                    return {(a, n) for a, n in sl_.fields if a and ("DataEntry" in a or "migration" in a)} | {("local", l) for l in sl_.locals if b.local_name(l) and 1 <= l}
+                sk_ = du.slice_operand(rv["ops"][1], deep=False)
+                sp_ = du.slice_operand(rv["ops"][3], deep=False) if len(rv["ops"]) > 3 else None
+                st_ = du.slice_operand(rv["ops"][2], deep=False)
+                t_src = {x for x in _srcs(du.slice_operand(rv["ops"][2])) if x[0] != "local"} or _srcs(st_)
+                other = ({x for x in _srcs(du.slice_operand(rv["ops"][1])) if x[0] != "local"} | ({x for x in _srcs(du.slice_operand(rv["ops"][3])) if x[0] != "local"} if len(rv["ops"]) > 3 else set()))
+                from_pttl = bool(t_src - other) or bool({x for x in _srcs(st_) if x[0] == "local"} - _srcs(sk_) - (_srcs(sp_) if sp_ is not None else set()))
                 ctx.check(via and from_pttl, "C19.D2", "restore-ttl-origin:%s" % name, site(b, bb, i),
                           ok="ttl element = pttl_to_restore_expire_time(pttl)", bad="element 2 of RESTORE does not come from pttl_to_restore_expire_time(pttl): calls %s" % sorted(c.rsplit("::", 1)[-1] for c in st.calls)[:8])
                 sk = du.slice_operand(rv["ops"][1])
                 ctx.check(not sk.has_call("pttl_to_restore_expire_time"), "C19.D2", "restore-key-position:%s" % name, site(b, bb, i), ok="element 1 is the key", bad="element 1 of RESTORE is the ttl")
                 sp = du.slice_operand(rv["ops"][3]) if len(rv["ops"]) > 3 else None
                 if sp is not None:
-                    pn = {n for a, n in sp.fields}
-                    ctx.check("raw_data" in pn or any(b.local_name(l) == "raw_data" for l in sp.locals), "C19.D2", "restore-payload:%s" % name, site(b, bb, i), ok="element 3 is the DUMP payload", bad="element 3 of RESTORE is not the dumped payload")
+                    p_src = {x for x in _srcs(sp) if x[0] != "local"} or _srcs(du.slice_operand(rv["ops"][3], deep=False))
+                    k_src = {x for x in _srcs(sk) if x[0] != "local"}
+                    ctx.check(bool(p_src - t_src - k_src) and not sp.has_call("pttl_to_restore_expire_time"), "C19.D2", "restore-payload:%s" % name, site(b, bb, i), ok="element 3 is fed by its own entry field (the DUMP payload)", bad="element 3 of RESTORE is not the dumped payload (it shares its source with the key / ttl)")
     ctx.floor("C19.D2", "RESTORE command constructions", found, 2)
     # the push paths (blocking / active sync) and the scan all go through forward_entries
     fe = [b for b in F.all_bodies(bins=False) if "forward_entries" in b.path and b.kind == "Closure"]
